@@ -1,13 +1,171 @@
-"""Tables for C06, read from /repo's suds (fail-closed)."""
+"""Tables for C06, read from /repo's suds (fail-closed).
+
+Besides the boolean dictionaries and the builtin tag table this translates the
+three compiled regular expressions of suds.sax.date (_RE_DATE, _RE_TIME,
+_RE_DATETIME: their .pattern and .flags, i.e. what the parsers really use) into
+the Coq regex AST of coq/C06/Regex.v.  The translation walks CPython's own parse
+tree of the pattern (re._parser) and accepts exactly the constructs listed in
+`_tr_item`; anything else raises, and the framework then falls back to the
+baseline table and reports that the theorems are not re-checked.
+"""
+import re
+
 from harness import common
 from tools.gen_tables import _hdr, cstr
+
+try:                                    # Python >= 3.11
+    import re._parser as _P
+    import re._constants as _C
+except ImportError:                     # pragma: no cover
+    import sre_parse as _P
+    import sre_constants as _C
+
+
+class Untranslatable(Exception):
+    pass
+
+
+def _refuse(what):
+    raise Untranslatable("gen_tables: suds.sax.date regex uses %s, which the C06 regex model "
+                         "does not cover" % what)
+
+
+_UNI_DECIMAL = []
+
+
+def _unicode_decimal_ranges():
+    """Code point ranges of str.isdecimal(): what \\d means for a str pattern
+    compiled WITHOUT re.ASCII (sre's SRE_CATEGORY_UNI_DIGIT)."""
+    if not _UNI_DECIMAL:
+        import sys
+        lo = None
+        for c in range(sys.maxunicode + 2):
+            d = c <= sys.maxunicode and chr(c).isdecimal()
+            if d and lo is None:
+                lo = c
+            elif not d and lo is not None:
+                _UNI_DECIMAL.append((lo, c - 1))
+                lo = None
+    return list(_UNI_DECIMAL)
+
+
+def _cset(item, ascii_only):
+    """A one-character item as a list of inclusive ranges, or None."""
+    op, av = item
+    if op is _C.LITERAL:
+        return [(av, av)]
+    if op is _C.IN:
+        out = []
+        for o, a in av:
+            if o is _C.LITERAL:
+                out.append((a, a))
+            elif o is _C.RANGE:
+                out.append((a[0], a[1]))
+            elif o is _C.CATEGORY and a is _C.CATEGORY_DIGIT:
+                out += [(48, 57)] if ascii_only else _unicode_decimal_ranges()
+            else:
+                _refuse("the character class member %s %s" % (o, a))
+        return out
+    return None
+
+
+def _c_cset(rs):
+    return "[%s]" % "; ".join("(%d%%N, %d%%N)" % r for r in rs)
+
+
+def _c_nat(n):
+    if not (isinstance(n, int) and 0 <= n < 5000):
+        _refuse("the repetition bound %r" % (n,))
+    return "%d%%nat" % n
+
+
+def _tr_item(item, names, ascii_only):
+    """One parse tree item -> list of Coq regex terms (a spliced sequence)."""
+    op, av = item
+    if op is _C.AT:
+        if av is _C.AT_BEGINNING:
+            return ["Bol"]
+        if av is _C.AT_END:
+            return ["Eol"]
+        _refuse("the anchor %s" % av)
+    if op is _C.LITERAL:
+        return ["(Chr %d%%N)" % av]
+    if op is _C.IN:
+        return ["(Cls %s)" % _c_cset(_cset(item, ascii_only))]
+    if op is _C.MAX_REPEAT:
+        mn, mx, sub = av
+        body = list(sub)
+        cs = _cset(body[0], ascii_only) if len(body) == 1 else None
+        if cs is not None:
+            cmx = "None" if mx is _C.MAXREPEAT else "(Some %s)" % _c_nat(mx)
+            return ["(Rep %s %s %s)" % (_c_nat(mn), cmx, _c_cset(cs))]
+        if (mn, mx) == (0, 1):
+            return ["(Opt %s)" % _tr_seq(body, names, ascii_only)]
+        _refuse("the quantifier {%s,%s} applied to more than one character set" % (mn, mx))
+    if op is _C.SUBPATTERN:
+        group, add_flags, del_flags, sub = av
+        if add_flags or del_flags:
+            _refuse("inline flags")
+        if group is None:                       # (?: .. ): spliced into the sequence
+            out = []
+            for it in sub:
+                out += _tr_item(it, names, ascii_only)
+            return out
+        if group not in names:
+            _refuse("an unnamed capturing group")
+        return ["(Grp %s %s)" % (cstr(names[group]), _tr_seq(list(sub), names, ascii_only))]
+    if op is _C.BRANCH:
+        which, alts = av
+        if which is not None or len(alts) < 2:
+            _refuse("a branch of unexpected shape")
+        terms = [_tr_seq(list(a), names, ascii_only) for a in alts]
+        t = terms[-1]
+        for x in reversed(terms[:-1]):
+            t = "(Alt %s %s)" % (x, t)
+        return [t]
+    _refuse("the construct %s" % (op,))
+
+
+def _tr_seq(items, names, ascii_only):
+    terms = []
+    for it in items:
+        terms += _tr_item(it, names, ascii_only)
+    if not terms:
+        return "Eps"
+    t = terms[-1]
+    for x in reversed(terms[:-1]):
+        t = "(Cat %s %s)" % (x, t)
+    return t
+
+
+def regex_to_coq(compiled):
+    """Coq term of type `re` for a compiled pattern object (str pattern)."""
+    pattern, flags = compiled.pattern, int(compiled.flags)
+    if not isinstance(pattern, str):
+        _refuse("a bytes pattern")
+    if flags not in (int(re.ASCII), int(re.UNICODE)):
+        _refuse("the flags %s" % (re.RegexFlag(flags),))
+    tree = _P.parse(pattern, flags)
+    if int(tree.state.flags) != flags:
+        _refuse("inline global flags (%s)" % (re.RegexFlag(int(tree.state.flags)),))
+    names = {idx: nm for nm, idx in tree.state.groupdict.items()}
+    if dict(compiled.groupindex) != dict(tree.state.groupdict):
+        _refuse("group names that differ between the compiled object and its pattern")
+    term = _tr_seq(list(tree), names, flags == int(re.ASCII))
+    # every group of the pattern must have made it into the term, once
+    for nm in tree.state.groupdict:
+        if term.count("(Grp %s " % cstr(nm)) != 1:
+            _refuse("the group %r more or less than once" % nm)
+    if tree.state.groups - 1 != len(tree.state.groupdict):
+        _refuse("unnamed capturing groups")
+    return term
 
 
 def gen():
     common.force_repo_path()
     from suds.xsd import sxbuiltin
     from suds.sax import date as sdate
-    out = [_hdr("C06Tables")]
+    out = [_hdr("C06Tables"), "From SV Require Import C06.Regex.\n"]
     x2p = sxbuiltin.XBoolean._xml_to_python
     p2x = sxbuiltin.XBoolean._python_to_xml
     if not all(isinstance(k, str) and isinstance(v, bool) for k, v in x2p.items()):
@@ -25,16 +183,17 @@ def gen():
     for name, cls in sorted(sxbuiltin.Factory.tags.items()):
         kinds.append("(%s, %s)" % (cstr(name), cstr(cls.__name__)))
     out.append("Definition builtin_tags : list (str * str) := [%s]." % ";\n  ".join(kinds))
-    # regex pattern strings of suds.sax.date (the scanner model was written
-    # against these; the harness compares them with the strings it knows)
-    for nm in ("_PATTERN_DATE", "_PATTERN_TIME", "_PATTERN_DATETIME"):
-        out.append("Definition %s : str := %s." % (nm.strip("_").lower(), cstr(getattr(sdate, nm))))
+    # the regular expressions of suds.sax.date: pattern text, flags, and the
+    # translated AST the scanner model is PROVED equal to (C06/RegexProofs.v)
     for nm in ("_RE_DATE", "_RE_TIME", "_RE_DATETIME"):
-        out.append("Definition %s_flags : Z := %s." % (nm.strip("_").lower(),
-                                                        common.cZ(int(getattr(sdate, nm).flags))))
+        rx = getattr(sdate, nm)
+        if not isinstance(rx, re.Pattern):
+            raise SystemExit("gen_tables: suds.sax.date.%s is not a compiled pattern" % nm)
+        low = nm.strip("_").lower()                      # re_date ...
+        out.append("Definition pattern_%s : str := %s." % (low[3:], cstr(rx.pattern)))
+        out.append("Definition %s_flags : Z := %s." % (low, common.cZ(int(rx.flags))))
+        out.append("Definition %s : re := %s." % (low, regex_to_coq(rx)))
     return "\n".join(out) + "\n"
-
-
 
 
 NAME = "C06Tables"
